@@ -227,6 +227,24 @@ fn check_c23(seed: u64, tier: Tier, replay: Option<String>) -> i32 {
         let calls = ev.traces[0].len() as u64;
         let first_rename = ev.traces[0].iter().position(|t| t.op == "rename").unwrap_or(calls as usize) as u64;
         acc.probes.add("full_pipeline_calls", calls);
+        // enumerated: every rename of the publish phase reached THROUGH the public entry point
+        // (what wraps the publish routine - guards, cleanup on error paths - only runs here):
+        // fail it, fail it together with the call that follows (the rollback), crash at and after it
+        let renames: Vec<u64> = ev.traces[0].iter().enumerate().filter(|(_, t)| t.op == "rename").map(|(i, _)| i as u64).collect();
+        for r in &renames {
+            for plan in [
+                vec![Fault { call: *r, kind: FaultKind::Errno { errno: 5 } }],
+                vec![Fault { call: *r, kind: FaultKind::Errno { errno: 5 } }, Fault { call: *r + 1, kind: FaultKind::Errno { errno: 5 } }],
+                vec![Fault { call: *r, kind: FaultKind::Errno { errno: 5 } }, Fault { call: *r + 1, kind: FaultKind::Errno { errno: 2 } }],
+                vec![Fault { call: *r, kind: FaultKind::Crash }],
+                vec![Fault { call: *r + 1, kind: FaultKind::Crash }],
+            ] {
+                let mut sc = gbase[*i].clone();
+                sc.runs[0].plan = plan;
+                gscen.push(sc);
+            }
+        }
+        acc.probes.add("full_pipeline_rename_scenarios", renames.len() as u64 * 5);
         let n = if quick { 5 } else { 150 };
         for k in 0..n {
             // half of the faults in the generation phase, half in the publish phase
